@@ -39,8 +39,19 @@ type Sys struct {
 	NClients int
 	CIDR     string // pool network; unit u = base+u
 	NUnits   int
-	events   []core.Event
+	// second pool (fast-path systems only): another network, gateway, DNS list and lease time. Its addresses
+	// are projected to the units pool2Unit0 .. pool2Unit0+NUnits2-1 (disjoint from pool 1's 0..NUnits-1)
+	CIDR2   string
+	NUnits2 int
+	events  []core.Event
 }
+
+const (
+	pool2Unit0 = 100
+	// one tick (ADV) is leaseTime/2+1s of pool 1: a pool-2 lease, like a pool-1 lease, is unexpired after one
+	// tick and expired after two, so the ghost's lease age in ticks holds for both pools
+	leaseTime2 = 45 * time.Minute
+)
 
 func NewSys(variant string, nclients int, cidr string, nunits int, reqUnits []int) *Sys {
 	s := &Sys{Variant: variant, NClients: nclients, CIDR: cidr, NUnits: nunits}
@@ -88,6 +99,9 @@ func (s *Sys) WithFastPath() *Sys {
 	c.fpProbes = fpBattery(s.NClients)
 	// a configuration reload that offers a pool under an id already in use (rejected by the pool manager)
 	c.events = append(append([]core.Event{}, s.events...), core.Event{"op": "DUPPOOL", "c": 0, "u": -1})
+	// a second pool, and the operator making it (or pool 1 again) the default pool for new clients
+	c.CIDR2, c.NUnits2 = "172.16.8.0/28", 16
+	c.events = append(c.events, core.Event{"op": "SETDEF2", "c": 0, "u": -1}, core.Event{"op": "SETDEF1", "c": 0, "u": -1})
 	return &c
 }
 func (s *Sys) Config() map[string]any {
@@ -100,6 +114,7 @@ func (s *Sys) Config() map[string]any {
 	if s.FastPath {
 		cfg["impl"] = "dhcp.Server+dhcp_fastpath.c-" + s.Variant
 		cfg["probes"] = s.fpProbes
+		cfg["pool2"] = fmt.Sprintf("%s lease %s -> units %d..%d", s.CIDR2, leaseTime2, pool2Unit0, pool2Unit0+s.NUnits2-1)
 	}
 	return cfg
 }
@@ -113,8 +128,15 @@ func (s *Sys) base() net.IP {
 	_, n, _ := net.ParseCIDR(s.CIDR)
 	return n.IP.To4()
 }
+func (s *Sys) base2() net.IP {
+	_, n, _ := net.ParseCIDR(s.CIDR2)
+	return n.IP.To4()
+}
 func (s *Sys) unitIP(u int) net.IP {
 	b := s.base()
+	if s.CIDR2 != "" && u >= pool2Unit0 {
+		b, u = s.base2(), u-pool2Unit0
+	}
 	v := uint32(b[0])<<24 | uint32(b[1])<<16 | uint32(b[2])<<8 | uint32(b[3])
 	v += uint32(u)
 	return net.IPv4(byte(v>>24), byte(v>>16), byte(v>>8), byte(v)).To4()
@@ -124,12 +146,18 @@ func (s *Sys) unitOf(ip net.IP) int {
 	if ip == nil || ip.IsUnspecified() {
 		return -1
 	}
-	b := s.base()
-	v := int64(uint32(ip[0])<<24|uint32(ip[1])<<16|uint32(ip[2])<<8|uint32(ip[3])) - int64(uint32(b[0])<<24|uint32(b[1])<<16|uint32(b[2])<<8|uint32(b[3]))
-	if v < 0 || v >= int64(s.NUnits) {
-		return -2
+	off := func(b net.IP) int64 {
+		return int64(uint32(ip[0])<<24|uint32(ip[1])<<16|uint32(ip[2])<<8|uint32(ip[3])) - int64(uint32(b[0])<<24|uint32(b[1])<<16|uint32(b[2])<<8|uint32(b[3]))
 	}
-	return int(v)
+	if v := off(s.base()); v >= 0 && v < int64(s.NUnits) {
+		return int(v)
+	}
+	if s.CIDR2 != "" {
+		if v := off(s.base2()); v >= 0 && v < int64(s.NUnits2) {
+			return pool2Unit0 + int(v)
+		}
+	}
+	return -2
 }
 
 func mac(c int, alt bool) net.HardwareAddr {
@@ -159,6 +187,7 @@ type inst struct {
 	s         *Sys
 	srv       *dhcp.Server
 	pool      *dhcp.Pool
+	pool2     *dhcp.Pool // fast-path systems only
 	pm        *dhcp.PoolManager
 	conn      *capConn
 	lastOffer map[int]int // client -> unit of the last OFFER
@@ -193,6 +222,7 @@ func (s *Sys) New() core.Instance {
 		panic(err)
 	}
 	var fp *fpState
+	var p2 *dhcp.Pool
 	if s.FastPath {
 		fp = newFPState(loader)
 		// the pool was added before the maps existed: add it to the loader the way PoolManager.AddPool does
@@ -200,8 +230,16 @@ func (s *Sys) New() core.Instance {
 		if err := pm.AddPool(p); err != nil {
 			panic(err)
 		}
+		// the first pool added is the default pool; pool 2 differs in everything a reply carries
+		p2, err = dhcp.NewPool(dhcp.PoolConfig{ID: 2, Name: "q", Network: s.CIDR2, Gateway: s.unitIP(pool2Unit0 + 1).String(), DNSServers: []string{"1.1.1.1"}, LeaseTime: leaseTime2})
+		if err != nil {
+			panic(err)
+		}
+		if err := pm.AddPool(p2); err != nil {
+			panic(err)
+		}
 	}
-	return &inst{fp: fp, s: s, srv: srv, pool: p, pm: pm, conn: &capConn{}, lastOffer: map[int]int{}, lastAck: map[int]int{}, start: time.Now(), offAge: map[string]int{}, decl: map[string]bool{}, ackAlt: map[int]bool{}}
+	return &inst{pool2: p2, fp: fp, s: s, srv: srv, pool: p, pm: pm, conn: &capConn{}, lastOffer: map[int]int{}, lastAck: map[int]int{}, start: time.Now(), offAge: map[string]int{}, decl: map[string]bool{}, ackAlt: map[int]bool{}}
 }
 
 func (in *inst) build(c int, alt bool, mt dhcpv4.MessageType, reqIP net.IP, ciaddr net.IP) *dhcpv4.DHCPv4 {
@@ -267,6 +305,7 @@ func (in *inst) Apply(ev core.Event) map[string]any {
 		if rt == "OFFER" {
 			in.lastOffer[c] = ru
 			in.offAge[fmt.Sprintf("%d=%d", c, ru)] = 0
+			in.noteOffer(c)
 		}
 		return out(rt, ru, -1, false)
 	case "REQSEL", "REQSELALT":
@@ -308,6 +347,7 @@ func (in *inst) Apply(ev core.Event) map[string]any {
 		in.direct = false
 		delete(in.lastAck, c)
 		delete(in.ackAlt, c)
+		in.dropOffer(c)
 		return out(rt, ru, o, false)
 	case "DECL": // the client declines the address it was just ACKed
 		o, ok := in.lastAck[c]
@@ -318,6 +358,7 @@ func (in *inst) Apply(ev core.Event) map[string]any {
 		rt, ru := in.send(in.build(c, in.ackAlt[c], dhcpv4.MessageTypeDecline, s.unitIP(o), nil))
 		delete(in.lastAck, c)
 		delete(in.ackAlt, c)
+		in.dropOffer(c)
 		return out(rt, ru, o, false)
 	case "DECLU": // a DECLINE naming an arbitrary address
 		in.decl[fmt.Sprintf("%d", u)] = true
@@ -325,6 +366,7 @@ func (in *inst) Apply(ev core.Event) map[string]any {
 		if o, ok := in.lastAck[c]; ok && o == u { // it named the client's own address: the lease is gone
 			delete(in.lastAck, c)
 			delete(in.ackAlt, c)
+			in.dropOffer(c)
 		}
 		return out(rt, ru, u, false)
 	case "INFORM":
@@ -351,6 +393,15 @@ func (in *inst) Apply(ev core.Event) map[string]any {
 			panic("a second pool with id 1 was accepted")
 		}
 		return out("none", -1, -1, false)
+	case "SETDEF1", "SETDEF2": // the operator changes the default pool (the pool new, unclassified clients are served from)
+		id := uint32(1)
+		if op == "SETDEF2" {
+			id = 2
+		}
+		if err := in.pm.SetDefaultPool(id); err != nil {
+			panic(err)
+		}
+		return out("none", -1, -1, false)
 	}
 	panic("unknown op " + op)
 }
@@ -363,6 +414,32 @@ func (in *inst) noteAck(c int, rt string, ru int) {
 				in.fp.ackFields[c] = fieldsOf(r)
 			}
 		}
+		in.dropOffer(c)
+	}
+}
+
+// noteOffer records the option fields of the OFFER the userspace server just sent to client c, if c has been
+// ACKed before (the fast path answers only such clients): what userspace tells that subscriber for a DISCOVER
+// from now until its next ACK. Only an OFFER that differs from the client's last ACK is kept: the fast path's
+// answers are compared with the ACK's fields anyway, so an equal OFFER adds nothing (and no states).
+func (in *inst) noteOffer(c int) {
+	if in.fp == nil || len(in.conn.out) == 0 {
+		return
+	}
+	if _, acked := in.lastAck[c]; !acked {
+		return
+	}
+	delete(in.fp.offFields, c)
+	if r, err := dhcpv4.FromBytes(in.conn.out[len(in.conn.out)-1]); err == nil {
+		if f := fieldsOf(r); f != in.fp.ackFields[c] {
+			in.fp.offFields[c] = f
+		}
+	}
+}
+
+func (in *inst) dropOffer(c int) {
+	if in.fp != nil {
+		delete(in.fp.offFields, c)
 	}
 }
 
@@ -438,6 +515,17 @@ func (in *inst) Fingerprint() string {
 	fpfp := ""
 	if in.fp != nil {
 		fpfp = "|FP:" + in.fp.fingerprint()
+		ps2 := in.pool2.VerifSnapshot()
+		var al2, av2 []string
+		for k, v := range ps2.Allocated {
+			al2 = append(al2, k+"="+v.String())
+		}
+		sort.Strings(al2)
+		for _, v := range ps2.Available {
+			av2 = append(av2, v.String())
+		}
+		sort.Strings(ps2.Unavailable)
+		fpfp += fmt.Sprintf("|P2:def=%d;A:%s;V:%s;U:%s|", core.Field(in.pm, "defaultPoolID").Uint(), strings.Join(al2, ","), strings.Join(av2, ","), strings.Join(ps2.Unavailable, ","))
 	}
 	return fpfp + strings.Join(parts, ";") + "|A:" + strings.Join(al, ",") + "|V:" + strings.Join(av, ",") + "|U:" + strings.Join(ps.Unavailable, ",") + "|H:" + strings.Join(lo, ";") + core.Fingerprint(in.ackAlt, nil) + core.Fingerprint(in.offAge, nil) + core.Fingerprint(in.decl, nil)
 }
